@@ -718,6 +718,9 @@ class CategoricalClassification:
 
         elif type == 'missing':
             X_noise = np.copy(X)
+            if isinstance(missing_val, float) and np.issubdtype(X_noise.dtype, np.integer):
+                # an integer array cannot hold a float marker (the default is -inf)
+                X_noise = X_noise.astype(float)
             Xn_T = X_noise.T
             n = Xn_T.shape[1]
             n_missing = int(n * p)
